@@ -97,23 +97,28 @@ ECancelDone ==
 (* shutdown() issued after the top-level run                               *)
 ESshut ==
   /\ Is("sshut") /\ KeepM
-  /\ \/ Ev.n = Root /\ Terminated(cfg, S) /\ Same
+  /\ \/ Ev.n = Root /\ ~cfg.xshut /\ Terminated(cfg, S) /\ Same
+     \/ Ev.n = Root /\ XShutG(cfg, S) /\ Marked("top", Root) /\ S' = XShutF(cfg, S)
      \/ /\ TidyDoneG(cfg, S, Ev.n) /\ S.cause[Ev.n] # "cancelled"
         /\ \E k \in TidyKs(cfg, S, Ev.n) : S' = TidyDoneF(cfg, S, Ev.n, k)
      \/ RelayG(cfg, S, Ev.n) /\ S' = RelayF(cfg, S, Ev.n)
 
 ESshutRet ==
   /\ Is("sshut-ret") /\ KeepM
-  /\ \/ /\ Ev.n = Root /\ Terminated(cfg, S) /\ Same /\ Ev.v = "null" /\ JustAfter("sshut", Root)
+  /\ \/ /\ Ev.n = Root /\ ~cfg.xshut /\ Terminated(cfg, S) /\ Same /\ Ev.v = "null" /\ JustAfter("sshut", Root)
+     \/ \* the explicit shutdown() had nothing to send
+        /\ Ev.n = Root /\ cfg.xshut /\ S.xs = "done" /\ JustAfter("sshut", Root) /\ Same
+        /\ Ev.v = IF Kids(cfg, Root) = {} /\ S.sres[Root] = "true" THEN "true" ELSE "null"
      \/ \* immediate return of a relay: already shut down, or no member
         /\ Ev.n # Root /\ ~Casting(cfg, S, Ev.n) /\ JustAfter("sshut", Ev.n)
         /\ S.sh[Ev.n] = "done" /\ Same
         /\ Ev.v = IF Kids(cfg, Ev.n) = {} THEN "true" ELSE "null"
      \/ \* it had shut down before (a shutdown() issued before the run): nothing is sent
-        /\ Ev.n # Root /\ Over(S, Ev.n) /\ S.sres[Ev.n] = "skip" /\ JustAfter("sshut", Ev.n)
+        /\ Over(S, Ev.n) /\ S.sres[Ev.n] = "skip" /\ JustAfter("sshut", Ev.n)
         /\ Ev.v = "null" /\ Same
      \/ /\ ShutJoinG(cfg, S, Ev.n)
-        /\ IF OwnShut(cfg, S, Ev.n) THEN S.cause[Ev.n] # "cancelled" ELSE S.sh[Ev.n] = "running"
+        /\ IF OwnShut(cfg, S, Ev.n) THEN S.cause[Ev.n] # "cancelled"
+           ELSE IF XCast(cfg, S, Ev.n) THEN TRUE ELSE S.sh[Ev.n] = "running"
         /\ \E k \in Culprits(cfg, S, Ev.n) : S' = ShutJoinF(cfg, S, Ev.n, k)
         /\ S'.sres[Ev.n] = Ev.v
 
@@ -215,9 +220,17 @@ ETopHang ==
   /\ Is("top") /\ Once("top", Root) /\ Same
   /\ Ev.v = "deadlock" /\ Stuck(cfg, S) /\ ~Admissible(cfg)
 
+(* the caller's explicit shutdown() hangs: only outside the hypothesis of C03 *)
+(* (a handler that never returns under shutdown_timeout=None), and when the   *)
+(* specification is stuck in the same way                                     *)
+ELateHang ==
+  /\ Is("late-hang") /\ KeepM /\ Same
+  /\ cfg.xshut /\ S.xs = "running" /\ ~AnyInstant(cfg, S) /\ Future(cfg, S) = {} /\ ~Admissible(cfg)
+
 ELeftover ==
   /\ Is("leftover") /\ KeepM /\ Same
   /\ Terminated(cfg, S) /\ Marked("top", Root) /\ Ev.i = 0
+  /\ cfg.xshut => (S.xs = "done" /\ AllShutSeen)
 
 (* one named action per kind of event and per silent action, so that TLC's   *)
 (* coverage report says which actions the validated traces exercised       *)
@@ -243,6 +256,7 @@ LTop == UNCHANGED <<cfg, tid>> /\ l' = l + 1 /\ ETop
 LTopHang == UNCHANGED <<cfg, tid>> /\ l' = l + 1 /\ ETopHang
 LRes == UNCHANGED <<cfg, tid>> /\ l' = l + 1 /\ ERes
 LLeftover == UNCHANGED <<cfg, tid>> /\ l' = l + 1 /\ ELeftover
+LLateHang == UNCHANGED <<cfg, tid>> /\ l' = l + 1 /\ ELateHang
 LStall == UNCHANGED <<cfg, tid>> /\ l' = l + 1 /\ EStall
 LShutCancelDone == UNCHANGED <<cfg, tid>> /\ l' = l + 1 /\ EShutCancelDone
 LUserCancel == UNCHANGED <<cfg, tid>> /\ l' = l + 1 /\ EUserCancel
@@ -254,7 +268,7 @@ QShutCancelProp == UNCHANGED <<cfg, tid>> /\ l' = l /\ KeepM /\ Has /\ \E s \in 
 
 Logged == LRunBegin \/ LStart \/ LEnd \/ LRaise \/ LCancel \/ LRecancel \/ LCancelDone \/ LSshut \/ LSshutRet
           \/ LSshutCancel \/ LRunEnd \/ LRunExc \/ LDiag \/ LShut \/ LShutDone \/ LShutCancel \/ LTick \/ LSnap
-          \/ LTop \/ LTopHang \/ LRes \/ LLeftover \/ LStall \/ LShutCancelDone \/ LUserCancel
+          \/ LTop \/ LTopHang \/ LRes \/ LLeftover \/ LLateHang \/ LStall \/ LShutCancelDone \/ LUserCancel
 Silent == QProcess \/ QTimeout \/ QCancelProp \/ QShutExpire \/ QShutCancelProp
 
 TNext == Logged \/ Silent
@@ -379,6 +393,7 @@ Why(C, X, e) ==
              ELSE IF ~AllShutSeen THEN "shut-missing"
              ELSE "top-other")
        [] e.k = "leftover" -> "leftover-tasks"
+       [] e.k = "late-hang" -> "no-progress-explicit-shutdown"
        [] OTHER -> "unknown-event"
 
 (* evaluated as a state constraint: prints, never prunes *)
